@@ -10,84 +10,6 @@ N = {"quick": 5000, "thorough": 80000}
 FROM7 = [dict(tbl="t7", alias="", jt="", on=[])]
 
 
-def running_rounded_mean(vals):
-    m = 0
-    for i, x in enumerate(vals, 1):
-        m = int(round_half_away((m * (i - 1) + x) / i))
-    return m
-
-
-def round_half_away(x):
-    import math
-    return math.floor(x + 0.5) if x >= 0 else -math.floor(-x + 0.5)
-
-
-def _val(row, names, o):
-    return row[names.index(o["c"])] if o["k"] == "col" else o["val"]
-
-
-def _holds(row, names, c):
-    x, y = _val(row, names, c["l"]), _val(row, names, c["r"])
-    if x["t"] == "n" or y["t"] == "n":
-        return c["op"] == "!=" and x != y
-    a, b = x["v"], y["v"]
-    return {"=": a == b, "!=": a != b, "<": a < b, "<=": a <= b, ">": a > b, ">=": a >= b}[c["op"]]
-
-
-def avg_finding(c, r):
-    """Signature of the known finding avg-running-rounding, evaluated on the case itself: the result has exactly one
-    row per true group with the right grouping values and the right counts, and every AVG cell equals the code's
-    running rounded mean (mean re-rounded after every row, in scan order) of that group's values.  Any other wrong
-    result does not match and is reported as a violation."""
-    q = c["q"]
-    if r.get("err") or not any(it["k"] == "avg" for it in q["list"]) or len(q["from"]) != 1:
-        return []
-    tbl = c["db"][q["from"][0]["tbl"]]
-    names = [col["n"] for col in tbl["cols"]]
-    rows = [row for row in tbl["rows"] if not q["where"] or any(all(_holds(row, names, cm) for cm in conj) for conj in q["where"])]
-    gcols = []
-    for g in q["group"]:
-        hit = [i for i, it in enumerate(q["list"]) if it["k"] == "col" and (it["alias"] == g["c"] or it["ref"]["c"] == g["c"])]
-        if len(hit) != 1:
-            return []
-        gcols.append((hit[0], names.index(q["list"][hit[0]]["ref"]["c"])))
-    groups = {}
-    for row in rows:
-        groups.setdefault(json.dumps([row[ci] for _, ci in gcols], sort_keys=True), []).append(row)
-    out_rows = r.get("rows") or []
-    if not q["group"]:
-        if len(out_rows) != 1:
-            return []
-        pairs = [(out_rows[0], rows)]
-    else:
-        if len(out_rows) != len(groups):
-            return []
-        pairs = []
-        for out in out_rows:
-            k = json.dumps([out[li] for li, _ in gcols], sort_keys=True)
-            if k not in groups:
-                return []
-            pairs.append((out, groups.pop(k)))
-    differs = False
-    for out, members in pairs:
-        for i, it in enumerate(q["list"]):
-            if it["k"] == "count" and out[i]["v"] != len(members):
-                return []
-            if it["k"] == "countcol" and out[i]["v"] != sum(1 for m in members if m[names.index(it["ref"]["c"])]["t"] != "n"):
-                return []
-            if it["k"] == "avg":
-                vs = [m[names.index(it["ref"]["c"])]["v"] for m in members]
-                if not vs:
-                    if out[i]["v"] != 0:
-                        return []
-                    continue
-                if out[i]["v"] != running_rounded_mean(vs):
-                    return []
-                if 2 * abs(out[i]["v"] * len(vs) - sum(vs)) > len(vs):
-                    differs = True
-    return ["avg-running-rounding"] if differs else []
-
-
 def run(ctx):
     binary = vlib.build_harness(ctx, "sem")
     sets = semlib.gen_sets(ctx)
@@ -101,9 +23,14 @@ def run(ctx):
         if n % 3 == 0 and len(tables[t]["rows"]) > 1:
             rev = dict(cols=tables[t]["cols"], rows=list(reversed(tables[t]["rows"])))
             cases.append(dict(db={"t7": rev}, q=q, _t=("rev", t)))
+    # aggregates on top of a join (the same table under two aliases)
+    jl, fs = sets["joinlistgroups7"], sets["fromself7"][0]
+    for n, (t, lg) in enumerate(semlib.cover_product(rng, [tables, jl], N[ctx.tier] // 5)):
+        q = dict(**{"from": fs}, where=[], list=jl[lg]["list"], group=jl[lg]["group"], order=[], limit=-1, offset=-1, style=n % 8)
+        cases.append(dict(db={"t7": tables[t]}, q=q, _t=("j", t)))
     pool = vlib.WorkerPool(ctx, binary)
     try:
         semlib.execute(ctx, pool, cases, lambda c: c["_t"])
     finally:
         pool.close()
-    report(ctx, cases, "C07", "c07", finding_of=avg_finding)
+    report(ctx, cases, "C07", "c07")
